@@ -233,7 +233,7 @@ PLAN["C10"] = {
 PLAN["C07"] = {
     "level": "exploration",
     "rule": ("rapid, on real Groth16 systems set up in-process (quick: insertion and deletion at depth 3/batch 2; thorough: + (2,3),(4,1) in both modes, (2,4) insertion, (1,4) deletion): parameter sets that are VALID (generated histories/batches as C01/C02, "
-             "input hash = reference packing hash, reduced or as the raw 256-bit Keccak value), INVALID by one batch mutation (every class of C01/C02 expressible with uint32 indices; plus the single-check FOCUS classes built deliberately: a write onto an occupied leaf with that write's post-root, a start index or deletion index with a multiple of 2^depth / 2^(depth+1) added and the hash recomputed, a deletion presenting the wrong item on the genuine path — TestC07_Invalid draws hundreds of refusals, which cost a failed solve rather than a proof), carrying a WRONG HASH, or of the WRONG SHAPE "
+             "input hash = reference packing hash, reduced or as the raw 256-bit Keccak value), INVALID by one batch mutation (every class of C01/C02 expressible with uint32 indices; plus the single-check FOCUS classes built deliberately: a write onto an occupied leaf with that write's post-root, a start index or deletion index with a multiple of 2^depth / 2^(depth+1) added and the hash recomputed, a deletion presenting the wrong item on the genuine path — TestC07_Invalid draws hundreds of refusals, which cost a failed solve rather than a proof), VALID with a reduced hash that has a leading zero byte (searched for among drawn batches), carrying a WRONG HASH, or of the WRONG SHAPE "
              "(batch+-1, depth+-1, ragged, empty, short index/commitment lists, and ONE array longer or shorter than the others — 1-3 extra Merkle proofs (full, copied, empty, nil or over-long rows), an extra commitment or index — so that the valid batch is a prefix of the set; TestC07_Shapes draws hundreds of these per mode, they are refused before any proving work). Validity is decided by the reference relation + packing. Oracle: valid => Prove* returns (proof, nil) and, for every candidate public input "
              "h, h+r, h+2r (accept) and h+-1, h xor one bit, hash of a perturbed batch, 0, random (reject), both Verify* of the same system and gnark's groth16.Verify on a harness-built public witness agree with 'candidate == h mod r'; "
              "the proving system of the other mode with the same dimensions rejects the proof through either Verify entry point; invalid or mis-shaped => (nil proof, error), never a panic. "
@@ -401,7 +401,7 @@ PLAN["C17"] = {
 
 PLAN["C12"] = {
     "level": "exploration",
-    "rule": ("(Paths, rapid) drawn (mode, depth from {1,2,3,4,8,16,20,30,max,uniform}, batch 1..8); the constraint system is built through BuildR1CSX, built again, built while three other compilations run concurrently in the same process, "
+    "rule": ("(Paths, rapid) drawn (mode, depth from {1,2,3,4,8,16,20,30,max,uniform}, batch 1..8; a quarter of the triples large: depth {16,20,26,30,max} x batch {10,13,16}); the constraint system is built through BuildR1CSX, for two thirds of the triples also through the key-IMPORT path at the same dimensions (ImportXSetup compiles the circuit itself; it is given the key files of a cached 1x1 system, and an import that refuses foreign keys is tolerated), built again, built while three other compilations run concurrently in the same process, "
              "and exported by the built binary's 'r1cs' command in a fresh process with GOMAXPROCS in {1,2,3,16}, with GOMEMLIMIT / GOGC settings, and in-process under a soft memory limit; (SetupPaths) at small dimensions additionally through SetupX, ImportXSetup on key files written by the harness from that setup "
              "(followed by proving with the imported system and verifying with the original), and in thorough through the CLI 'setup' (constraint-system section = file tail). Oracle (metamorphic): the SHA-256 of ConstraintSystem.WriteTo is identical "
              "across every path, run and process for one triple, and different for different triples seen in the run; the system has exactly one public input besides the constant wire; imported systems keep their dimensions. "
